@@ -11,6 +11,7 @@ CONSTANTS
   LoopForever = FALSE
   FastPathChecksAtomicQ = TRUE
   Sleeper = TRUE
+  SRun = FALSE
 VIEW MCView
 INVARIANT Safety
 PROPERTY RetSeesCompleted
